@@ -75,6 +75,27 @@ var c08Bad = map[string][]string{
 	"refresh-full":    {"chal-random", "chal-stale", "prices-expired", "prices-foreign", "allowance-zero", "minerfee-zero", "renewal-sig-random", "contract-sig-random"},
 	"refresh-partial": {"chal-random", "chal-stale", "prices-expired", "prices-foreign", "allowance-zero", "minerfee-zero", "renewal-sig-random", "contract-sig-random"},
 	"latest":          {"unknown-contract"},
+	// contract formation through the raw renter
+	"form-contract": {"prices-expired", "prices-foreign", "allowance-zero", "minerfee-zero", "contract-sig-random"},
+}
+
+// c08PoolBad are renter contributions that pass every check the host makes
+// itself and make the assembled transaction fail only in the host's own
+// transaction pool (consensus validation). They apply to every
+// contract-creating RPC.
+var c08PoolBad = []string{
+	"pool-policy-sig",      // one byte of the renter input's policy signature flipped
+	"pool-spent-in-pool",   // renter input double-spent by a pooled transaction while the host waits for the signatures
+	"pool-spent-on-chain",  // ... and that transaction mined meanwhile
+	"pool-parent-conflict", // renter parent conflicts with a pooled transaction
+	"pool-bad-proof",       // renter input element with a corrupted Merkle proof for the claimed basis
+	"pool-immature",        // renter input is an immature miner payout
+}
+
+func init() {
+	for _, rpc := range []string{"form-contract", "renew", "refresh-full", "refresh-partial"} {
+		c08Bad[rpc] = append(slices.Clone(c08Bad[rpc]), c08PoolBad...)
+	}
 }
 
 func init() { c08Bad["replenish-pools"] = c08Bad["replenish-accounts"] }
@@ -103,10 +124,11 @@ type c08 struct {
 	oldRepl   map[bool]*proto4.RPCReplenishAccountsRequest
 	foreign   types.PrivateKey
 	unknownID types.FileContractID
-	prevIDs   []types.FileContractID // contracts renewed away from
-	prev      []rhp.ContractRevision // ... with their last revision
-	active    *rhp.ContractRevision  // the current contract while an old one is selected
-	fresh     []proto4.Account       // accounts allocated for the running overflow step
+	prevIDs   []types.FileContractID       // contracts renewed away from
+	prev      []rhp.ContractRevision       // ... with their last revision
+	active    *rhp.ContractRevision        // the current contract while an old one is selected
+	injected  map[types.TransactionID]bool // transactions the renter itself put into the pool during the running step
+	fresh     []proto4.Account             // accounts allocated for the running overflow step
 	nfresh    int
 	baseAccts int
 }
@@ -175,6 +197,115 @@ func (c *c08) newContractFor(duration uint64) error {
 type c08Result struct {
 	err     error
 	success bool
+	harness error // the harness could not build the request at all
+}
+
+func isInc(err error) bool {
+	var inc errInconclusive
+	return errors.As(err, &inc)
+}
+
+// corruptProof flips one bit in the Merkle proof of the first renter input.
+func corruptProof(inputs []types.SiacoinElement) {
+	for i := range inputs {
+		if p := inputs[i].StateElement.MerkleProof; len(p) > 0 {
+			p[len(p)/2][3] ^= 0x10
+			return
+		}
+	}
+}
+
+// sabotage arranges the renter's contribution to a contract-creating RPC so
+// that the host's own checks pass and only its transaction pool objects.
+func (c *c08) sabotage(bad string, call *rhplab.RenewCall) error {
+	lab := c.lab
+	w := lab.RenterWallet
+	tip := lab.CM.Tip()
+	// the biggest confirmed, mature, unreserved output of the renter
+	pick := func() (types.SiacoinElement, error) {
+		els, err := w.SpendableOutputs()
+		if err != nil || len(els) == 0 {
+			return types.SiacoinElement{}, inconclusive("renter has no spendable output: %v", err)
+		}
+		best := els[0]
+		for _, el := range els[1:] {
+			if el.SiacoinOutput.Value.Cmp(best.SiacoinOutput.Value) > 0 {
+				best = el
+			}
+		}
+		return best, nil
+	}
+	// spend builds and signs a transaction moving el to addr
+	spend := func(el types.SiacoinElement, addr types.Address, fee uint64) types.V2Transaction {
+		f := types.Siacoins(1).Div64(100).Mul64(fee)
+		txn := types.V2Transaction{
+			MinerFee:       f,
+			SiacoinInputs:  []types.V2SiacoinInput{{Parent: el.Copy()}},
+			SiacoinOutputs: []types.SiacoinOutput{{Address: addr, Value: el.SiacoinOutput.Value.Sub(f)}},
+		}
+		w.SignV2Inputs(&txn, []int{0})
+		return txn
+	}
+	inject := func(txn types.V2Transaction) error {
+		if _, err := lab.CM.AddV2PoolTransactions(tip, []types.V2Transaction{txn}); err != nil {
+			return inconclusive("renter's own conflicting transaction refused by the pool: %v", err)
+		}
+		c.injected[txn.ID()] = true
+		return nil
+	}
+	switch bad {
+	case "pool-policy-sig":
+		call.MutPolicies = func(ps []types.SatisfiedPolicy) {
+			if len(ps) > 0 && len(ps[0].Signatures) > 0 {
+				ps[0].Signatures[0][7] ^= 0x01
+			}
+		}
+	case "pool-bad-proof":
+		// applied to the request by the mutators
+	case "pool-spent-in-pool", "pool-spent-on-chain":
+		el, err := pick()
+		if err != nil {
+			return err
+		}
+		call.Funding = &rhplab.Funding{Basis: tip, Inputs: []types.SiacoinElement{el}}
+		call.BeforeRound2 = func() {
+			if err := inject(spend(el, types.VoidAddress, 1)); err != nil {
+				c.r.Inconclusive(err.Error())
+				return
+			}
+			if bad == "pool-spent-on-chain" {
+				if err := lab.Mine(types.VoidAddress, 1); err != nil {
+					c.r.Inconclusive("mine double spend: " + err.Error())
+				}
+			}
+		}
+	case "pool-parent-conflict":
+		el, err := pick()
+		if err != nil {
+			return err
+		}
+		parent := spend(el, w.Address(), 1)
+		if err := inject(spend(el, types.VoidAddress, 2)); err != nil {
+			return err
+		}
+		call.Funding = &rhplab.Funding{Basis: tip, Inputs: []types.SiacoinElement{parent.EphemeralSiacoinOutput(0)}, Parents: []types.V2Transaction{parent}}
+	case "pool-immature":
+		if err := lab.Mine(w.Address(), 1); err != nil {
+			return inconclusive("mine: %v", err)
+		}
+		tip = lab.CM.Tip()
+		utip, els := lab.RenterUTXOs()
+		for _, el := range els {
+			if el.MaturityHeight > tip.Height+1 && utip == tip {
+				call.Funding = &rhplab.Funding{Basis: tip, Inputs: []types.SiacoinElement{el}}
+				return nil
+			}
+		}
+		return inconclusive("no immature renter output found")
+	default:
+		return inconclusive("unknown sabotage %q", bad)
+	}
+	return nil
 }
 
 func (c *c08) randSig() (s types.Signature) {
@@ -591,9 +722,18 @@ func (c *c08) do(st c08Step) (res c08Result) {
 			c.oldRepl[pools] = &cp
 			c.oldSigs = append(c.oldSigs, r.Revision.RenterSignature)
 		}
-	case "renew", "refresh-full", "refresh-partial":
-		kind := map[string]rhplab.RenewKind{"renew": rhplab.KindRenew, "refresh-full": rhplab.KindRefreshFull, "refresh-partial": rhplab.KindRefreshPartial}[st.RPC]
+	case "renew", "refresh-full", "refresh-partial", "form-contract":
+		kind := map[string]rhplab.RenewKind{"renew": rhplab.KindRenew, "refresh-full": rhplab.KindRefreshFull, "refresh-partial": rhplab.KindRefreshPartial, "form-contract": rhplab.KindForm}[st.RPC]
 		call := rhplab.RenewCall{Kind: kind, Existing: contract, Prices: c.prices, Allowance: types.Siacoins(300), Collateral: types.Siacoins(100), ProofHeight: contract.Revision.ProofHeight + 200}
+		if kind == rhplab.KindForm {
+			call.ProofHeight = c.lab.CM.Tip().Height + 300
+		}
+		if len(bad) > 5 && bad[:5] == "pool-" {
+			if err := c.sabotage(bad, &call); err != nil {
+				res.err = err
+				return
+			}
+		}
 		if p, ok := c.badPrices(bad); ok {
 			call.Prices = p
 		}
@@ -614,6 +754,8 @@ func (c *c08) do(st c08Step) (res c08Result) {
 				q.MinerFee = types.ZeroCurrency
 			case "basis-zero":
 				q.Basis = types.ChainIndex{}
+			case "pool-bad-proof":
+				corruptProof(q.RenterInputs)
 			}
 		}
 		call.MutRefresh = func(q *proto4.RPCRefreshContractRequest) {
@@ -624,6 +766,16 @@ func (c *c08) do(st c08Step) (res c08Result) {
 				q.ChallengeSignature = c.lab.RenterKey.SignHash(q.ChallengeSigHash(number - 1))
 			case "minerfee-zero":
 				q.MinerFee = types.ZeroCurrency
+			case "pool-bad-proof":
+				corruptProof(q.RenterInputs)
+			}
+		}
+		call.MutForm = func(q *proto4.RPCFormContractRequest) {
+			switch bad {
+			case "minerfee-zero":
+				q.MinerFee = types.ZeroCurrency
+			case "pool-bad-proof":
+				corruptProof(q.RenterInputs)
 			}
 		}
 		call.Round2 = func(renewalSig, contractSig *types.Signature) bool {
@@ -639,6 +791,9 @@ func (c *c08) do(st c08Step) (res c08Result) {
 		}
 		r := c.raw.Renew(c.cs, call)
 		done(r.Stage, r.Err)
+		if isInc(r.Err) {
+			res.harness = r.Err
+		}
 	default:
 		res.err = fmt.Errorf("unknown rpc %q", st.RPC)
 	}
@@ -712,9 +867,14 @@ func (c *c08) step(st c08Step) error {
 	}
 	c.contract.Revision = pre.State.Revision
 	seq0 := c.lab.Log.Seq()
+	c.injected = map[types.TransactionID]bool{}
+	spendable0, pool0 := c.lab.HostSpendable(), c.lab.PoolIDs()
 	res := c.do(st)
 	if err := c.quiesce(); err != nil {
 		return err
+	}
+	if res.harness != nil {
+		return res.harness
 	}
 	post, err := c.snapshot()
 	if err != nil {
@@ -764,6 +924,44 @@ func (c *c08) step(st c08Step) error {
 		if len(commits) > 0 || writes > 0 {
 			c.report("bad-request-persisted:"+label, fmt.Sprintf("a request built to be invalid caused %d persisting calls and %d balance/sector writes", len(commits), writes), nil, nil)
 		}
+		// a refused request leaves the host's wallet and pool as they were
+		// (apart from what the renter itself broadcast meanwhile)
+		spendable1, pool1 := c.lab.HostSpendable(), c.lab.PoolIDs()
+		// (outputs may be added when a block mined during the step matures an
+		// earlier contract payout; none may be lost)
+		lost := 0
+		for id := range spendable0 {
+			if !spendable1[id] {
+				lost++
+			}
+		}
+		if lost > 0 {
+			c.report("bad-request-changed-host-wallet:"+label, fmt.Sprintf("%d of the host wallet's %d spendable outputs are no longer spendable after a refused request: inputs not released, or spent", lost, len(spendable0)), nil, nil)
+		}
+		for id := range pool1 {
+			if !pool0[id] && !c.injected[id] {
+				c.report("bad-request-left-pool-transaction:"+label, "the host's pool holds a transaction that neither was there before the refused request nor was broadcast by the renter", nil, map[string]any{"txid": id})
+				break
+			}
+		}
+		if len(st.Bad) > 5 && st.Bad[:5] == "pool-" {
+			c.r.Count("pool_rejected_requests", 1)
+			c.r.SetAdd("pool_rejections", label)
+			if st.RPC != "form-contract" {
+				if lr, err := c.raw.LatestRevision(c.contract.ID); err != nil || lr.Contract != pre.State.Revision || lr.Revisable != pre.State.Revisable || lr.Renewed != pre.State.Renewed {
+					c.report("latest-revision-changed:"+label, "RPCLatestRevision differs after a request the host's pool rejected", nil, map[string]any{"before": pre.State, "after": lr, "error": errText(err)})
+				}
+				if err := c.quiesce(); err != nil {
+					return err
+				}
+			}
+			// flush whatever the renter broadcast so that later steps start clean
+			if err := c.lab.Mine(types.VoidAddress, 1); err != nil {
+				return inconclusive("mine: %v", err)
+			}
+			c.cs = c.lab.CM.TipState()
+			c.aud.cs = c.cs
+		}
 		if !post.equal(pre) {
 			c.report("bad-request-changed-state:"+label, "a request built to be invalid changed "+fmt.Sprint(pre.diff(post)), nil, map[string]any{"pre": pre, "post": post, "renter_error": errText(res.err)})
 		} else {
@@ -805,6 +1003,19 @@ func (c *c08) step(st c08Step) error {
 		c.r.Count("commits", okCommits)
 		last := commits[len(commits)-1]
 		switch last.Kind {
+		case rhplab.EvAddContract:
+			// a formation next to the current contract: it must confirm
+			if err := c.lab.Mine(types.VoidAddress, 1); err != nil {
+				return inconclusive("mine formation: %v", err)
+			}
+			if _, fce, err := c.lab.Contractor.V2FileContractElement(last.ContractID); err != nil {
+				c.report("formation-not-confirmable", "the formation transaction the host persisted did not confirm in the next block", &last, nil)
+			} else if stripSigs(fce.V2FileContract) != stripSigs(last.Revision) {
+				c.report("formation-confirmed-differs", "the confirmed contract differs from the one handed to the Contractor", &last, nil)
+			}
+			c.cs = c.lab.CM.TipState()
+			c.aud.cs = c.cs
+			c.r.Count("formations_confirmed", 1)
 		case rhplab.EvRenewContract:
 			// confirm the renewal, then carry on with the renewed contract
 			if err := c.lab.Mine(types.VoidAddress, 1); err != nil {
@@ -935,10 +1146,19 @@ func (c *c08) runSequential(nsteps int, table bool) error {
 				}
 			}
 		}
-		for _, rpc := range []string{"renew", "refresh-full", "refresh-partial"} {
+		for _, rpc := range []string{"form-contract", "renew", "refresh-full", "refresh-partial"} {
 			for _, bad := range c08Bad[rpc] {
 				if err := c.step(c08Step{RPC: rpc, Bad: bad}); err != nil {
 					return err
+				}
+				if len(bad) > 5 && bad[:5] == "pool-" {
+					// the contract the pool-rejected request was about is still the live one:
+					// ordinary RPCs succeed and yield consensus-valid revisions
+					for _, next := range []c08Step{c.genGood(c.rng, "fund"), {RPC: "append", Batch: []string{"new"}}} {
+						if err := c.step(next); err != nil {
+							return err
+						}
+					}
 				}
 			}
 			if err := c.step(c08Step{RPC: rpc}); err != nil {
@@ -954,7 +1174,7 @@ func (c *c08) runSequential(nsteps int, table bool) error {
 		var st c08Step
 		switch {
 		case i%40 == 39:
-			st = c08Step{RPC: []string{"renew", "refresh-full", "refresh-partial"}[c.rng.IntN(3)]}
+			st = c08Step{RPC: []string{"renew", "refresh-full", "refresh-partial", "form-contract"}[c.rng.IntN(4)]}
 		default:
 			st = c.genGood(c.rng, c.pickRPC(c.rng))
 		}
@@ -1113,6 +1333,9 @@ func runC08(r *mon.Run, replay string) {
 	r.Floor("not_revisable_requests", 60)
 	r.Floor("revision_txns_validated_within_2_of_proof_height", 10)
 	r.Floor("lifecycles_completed", 3)
+	r.Floor("pool_rejected_requests", 40)
+	r.Floor("formations_confirmed", 2)
+	r.Floor("contender_rounds", 12)
 	workers := r.Pick(8, 16)
 	steps := r.Pick(300, 1500)
 	var wg sync.WaitGroup
@@ -1147,6 +1370,11 @@ func runC08(r *mon.Run, replay string) {
 			})
 		}(i)
 	}
+	wg.Add(1)
+	go func() {
+		defer wg.Done()
+		guardRun(r, "C08 contenders", func() error { return c08Contenders(r) })
+	}()
 	for _, k := range []int{2, 3, 4, 8} {
 		wg.Add(1)
 		go func(k int) {
